@@ -434,11 +434,26 @@ class Evaluator:
         if isinstance(obj, Arr):
             if attr in ("shape", "T"):
                 return getattr(obj, attr)
+            if attr == "ndim":
+                return len(obj.shape)
+            if attr == "astype":
+                return _NativeFn(lambda dtype, **k: _np_array(self, obj, dtype=dtype))
             if attr in ("reshape", "tolist", "flat"):
                 return _NativeFn(getattr(obj, attr))
             if attr == "real":
                 return obj
             raise Undecided(f"array attribute {attr}")
+        if isinstance(obj, Arr0):
+            if attr == "ndim":
+                return 0
+            if attr == "tolist":
+                return _NativeFn(obj.tolist)
+            raise Undecided(f"0-d array attribute {attr}")
+        if getattr(obj, "__yadsa_native__", False):
+            v = getattr(obj, attr)
+            return _NativeFn(v) if callable(v) else v
+        if isinstance(obj, (int, Fraction, Rat)) and attr in ("tolist", "ndim"):
+            return _NativeFn(lambda: obj) if attr == "tolist" else 0
         if isinstance(obj, FuncVal):
             if attr == "__name__":
                 return obj.finfo.name
@@ -574,7 +589,15 @@ class Evaluator:
         if isinstance(f, type) and f in (ValueError, KeyError, NotImplementedError, RuntimeError, TypeError, AssertionError, IndexError, AttributeError):
             return _ExcVal(f.__name__, args[0] if args else "")
         if callable(f):
-            return f(*args, **kwargs)
+            try:
+                return f(*args, **kwargs)
+            except (Raised, Undecided):
+                raise
+            except (TypeError, ValueError, KeyError, IndexError, ZeroDivisionError) as e:
+                if isinstance(f, _TypeProxy) or f in _BUILTINS.values():
+                    # a Python builtin applied to folded values raised: that is the analysed code's exception
+                    raise Raised(type(e).__name__, str(e), node)
+                raise
         raise Undecided(f"call of {type(f).__name__}")
 
     def call_func(self, fv, args, kwargs, node=None):
@@ -1011,6 +1034,13 @@ class Evaluator:
     _DUNDER = {ast.Add: "add", ast.Sub: "sub", ast.Mult: "mul", ast.Div: "truediv", ast.MatMult: "matmul", ast.Pow: "pow"}
 
     def binop(self, op, a, b):
+        if getattr(a, "__yadsa_native__", False) or getattr(b, "__yadsa_native__", False):
+            import operator as _op
+
+            fn = {ast.Add: _op.add, ast.Sub: _op.sub, ast.Mult: _op.mul, ast.Div: _op.truediv}.get(type(op))
+            if fn is None:
+                raise Undecided("operator on a native model object")
+            return fn(a, b)
         if isinstance(a, ObjVal) or isinstance(b, ObjVal):
             name = self._DUNDER.get(type(op))
             if name is not None:
@@ -1605,6 +1635,7 @@ _BUILTINS = {
     "any": lambda it: any(_DUMMY.truth(x) for x in _DUMMY.iterate(it)),
     "all": lambda it: all(_DUMMY.truth(x) for x in _DUMMY.iterate(it)),
     "print": lambda *a, **k: None,
+    "round": lambda v, nd=None: A.opaque("round", (num_norm(v), nd)) if isinstance(num_norm(v), (Rat, Fraction)) else round(v, nd) if nd is not None else round(v),
     "repr": repr,
     "type": lambda o: ClassVal(_DUMMY, o.cinfo) if isinstance(o, ObjVal) and o.cinfo else type(o),
     "object": None,  # replaced below by _ObjectType()
@@ -1673,7 +1704,38 @@ def _b_isinstance2(v, t):
 _BUILTINS["isinstance"] = _b_isinstance2
 
 
+NARROW_DTYPES = {"numpy.float32", "numpy.float16", "numpy.single", "numpy.half", "numpy.int32", "numpy.int64", "numpy.int16", "numpy.int8",
+                 "float32", "float16", "f4", "f2", "int", "i8", "i4", "int32", "int64"}
+
+
+def _dtype_name(dtype):
+    if dtype is None:
+        return None
+    if isinstance(dtype, ExtVal):
+        return dtype.dotted
+    if isinstance(dtype, _TypeProxy):
+        return dtype.pytype.__name__
+    if isinstance(dtype, str):
+        return dtype
+    return repr(dtype)
+
+
+class Arr0:
+    """0-dimensional array around a scalar/object (np.array(5), np.array({...}))."""
+
+    ndim = 0
+
+    def __init__(self, value):
+        self.value = value
+
+    def tolist(self):
+        return self.value
+
+
 def _np_array(ev, data, dtype=None, **kw):
+    dn = _dtype_name(dtype)
+    narrow = dn in NARROW_DTYPES
+
     def conv(d):
         if isinstance(d, Arr):
             return conv(d.data)
@@ -1681,10 +1743,16 @@ def _np_array(ev, data, dtype=None, **kw):
             return [conv(x) for x in d]
         if dtype is not None and isinstance(d, str):
             return num_norm(Fraction(d))
+        if narrow and isinstance(d, (Rat, Fraction)):
+            return A.opaque(f"cast_{dn}", (num_norm(d),))  # precision/representation is lost here
         return d
 
     c = conv(data)
-    return Arr(c) if isinstance(c, list) else c
+    if isinstance(c, list):
+        return Arr(c)
+    if isinstance(c, (dict, str, bool)) or c is None or kw.get("_zero_dim"):
+        return Arr0(c)
+    return c
 
 
 def _np_elementwise(fn):
